@@ -128,9 +128,13 @@ Fixpoint or_shifts (k : N) (tmp : bytes) : N :=
 
 Inductive err := TooSmall.
 
-(* nunavutSetUxx(buf, buf_size_bytes, off_bits, value, len_bits); value : uint64_t *)
+(* nunavutSetUxx(buf, buf_size_bytes, off_bits, value, len_bits); value : uint64_t.  CURRENT text (/repo ba46e0a):
+     const size_t capacity_bits = buf_size_bytes * 8U;
+     if ((off_bits > capacity_bits) || (len_bits > (capacity_bits - off_bits))) return -BUFFER_TOO_SMALL;
+   (the text before that commit, `(buf_size_bytes * 8) < (off_bits + len_bits)` with a wrapping sum, is History/C14_history.v) *)
 Definition set_uxx (little : bool) (buf : bytes) (buf_size_bytes off_bits value len_bits : N) : option (bytes + err) :=
-  if w64 (buf_size_bytes * 8) <? w64 (off_bits + len_bits) then Some (inr TooSmall)
+  let capacity_bits := w64 (buf_size_bytes * 8) in
+  if (capacity_bits <? off_bits) || (capacity_bits - off_bits <? len_bits) then Some (inr TooSmall)
   else
     let saturated := choose_min len_bits 64 in
     let tmp := if little then mem_le 8 (w64 value) else tmp_any (w64 value) in
